@@ -226,7 +226,7 @@ def p_c08(facts, rep, tier):
         "whose other edge returns KeyOutOfScope or derives from / is dominated by in_scope / find_index_for, and those predicates compare "
         "the key's prefix with the proven path; S3 - every variant of the five error types has a raising site on the corresponding "
         "verifier's path (one frozen exception); S4 - the loops that raise OpOutOfScope / OpsOutOfOrder / PathsOutOfOrder are driven by an iterator over the "
-        "whole input collection (no sub-slicing, skip, take, step_by, chunks.. in its provenance; index loops over 0..len or 1..len). Plus compile-fail witnesses (thorough tier) that a client cannot build a Verified* object. "
+        "whole input collection (no sub-slicing, skip, take, step_by, chunks.. in its provenance; index loops over 0..len or 1..len); S5 - every confirm_value* compares the whole expected leaf (key path and value hash) with the proven terminal. Plus compile-fail witnesses (thorough tier) that a client cannot build a Verified* object. "
         "This decides that acceptance passes through the checks; it does not decide that the comparisons are the right ones nor hashing."
     )
     n1 = vguard.s1(facts, rep)
@@ -234,6 +234,8 @@ def p_c08(facts, rep, tier):
     n3 = vguard.s3(facts, rep)
     n4 = vguard.s4(facts, rep)
     rep.floor("S4 guard loops", n4, 4)
+    n5 = vguard.s5(facts, rep)
+    rep.floor("S5 value confirmations", n5, 3)
     rep.floor("S1 obligations", n1, 4)
     rep.floor("S2 obligations", n2, 8)
     rep.floor("S3 error variants", n3, 9)
@@ -338,6 +340,11 @@ def p_c03(facts, rep, tier):
     n7 = syncorder.o7(ctx, rep)
     syncorder.o8(ctx, rep)
     syncorder.o12(ctx, rep)
+    # the old state survives a crash before the switch-over only if no page it references is rewritten: the copy-on-write
+    # rules of C17 that are about WHICH pages are written are part of C03 as well
+    syncorder.w2(ctx, rep)
+    syncorder.w2_freelist(ctx, rep)
+    syncorder.w5(ctx, rep)
     rep.floor("O1 pre-meta write/resize events", n1, 4)
     rep.floor("O3 post-meta events", n3, 4)
     _sync_common(rep, ctx)
